@@ -24,6 +24,7 @@ func TestReplay_zeroValue(t *testing.T) {
 	if m := zvObRe.FindStringSubmatch(os.Getenv("GOVC_OBLIGATION")); m != nil {
 		clause = m[1]
 	}
+	clause = replayClause(clause)
 	const src = `package p
 import "unsafe"
 type S struct{ A int }
